@@ -1279,10 +1279,11 @@ macro_rules! impl_binop_assign {
 
         impl<I: Integer, const N: usize> $trait<&Bvf<I, N>> for Bvd {
             fn $method(&mut self, rhs: &Bvf<I, N>) {
-                for i in 0..usize::min(IArray::int_len::<u64>(rhs), self.data.len()) {
+                let used = Self::capacity_from_bit_len(self.length);
+                for i in 0..usize::min(IArray::int_len::<u64>(rhs), used) {
                     self.data[i].$method(IArray::get_int::<u64>(rhs, i).unwrap());
                 }
-                for i in usize::min(IArray::int_len::<u64>(rhs), self.data.len())..self.data.len() {
+                for i in usize::min(IArray::int_len::<u64>(rhs), used)..used {
                     self.data[i].$method(0);
                 }
                 if let Some(l) = self.data.get_mut(self.length / Bvd::BIT_UNIT) {
@@ -1353,7 +1354,7 @@ macro_rules! impl_addsub_assign {
         impl<I: Integer, const N: usize> $trait<&Bvf<I, N>> for Bvd {
             fn $method(&mut self, rhs: &Bvf<I, N>) {
                 let mut carry = 0;
-                for i in 0..usize::min(IArray::int_len::<u64>(rhs), self.data.len()) {
+                for i in 0..usize::min(IArray::int_len::<u64>(rhs), Self::capacity_from_bit_len(self.length)) {
                     let (d1, c1) = self.data[i].$overflowing_method(carry);
                     let (d2, c2) = d1.$overflowing_method(IArray::get_int(rhs, i).unwrap());
                     self.data[i] = d2;
